@@ -796,14 +796,14 @@ def borrowSeized (e : Env) (w : World) (id : Nat) (b : Borrow) (r : Dec) : World
     newLocked := w.newLocked ++ [{ id := w.lockedId + 1, orig := b.id, app := b.app, amountIn := b.amountIn, isBorrow := true,
                                    debt := b.principal, target := b.principal + fee, fee := fee, bonus := bonus, cr := r, collValue := b.amountIn }]
     newAuctions := w.newAuctions ++ [{ id := w.auctionId + 1, locked := w.lockedId + 1, asset := b.assetIn, amount := b.amountIn,
-                                       target := b.principal + fee }]
+                                       target := b.principal + fee, dutch := (e.app b.app).dutch2 }]
     totalBorrowed := w.totalBorrowed.add (statKey b.outPool b.assetOut) (- b.principal)
     totalLend := w.totalLend.add (statKey b.pool b.assetIn) (- b.amountIn)
     lendBal := if w.lendBal.get b.lendId - b.amountIn > 0 then w.lendBal.add b.lendId (- b.amountIn) else w.lendBal.remove b.lendId }
 
 theorem liquidateBorrowV2_cases (e : Env) (id : Nat) (w w' : World) (h : liquidateBorrowV2 e id w = some w') :
     w' = w ∨ ∃ b r, w.borrows.find? (·.id == id) = some b ∧ b.liquidated = false ∧ borrowRatio e b = some r ∧ borrowUnsafe e b = true ∧
-      (e.app b.app).kill = false ∧ (e.app b.app).wl2 = true ∧ (e.app b.app).dutch2 = true ∧
+      (e.app b.app).kill = false ∧ (e.app b.app).wl2 = true ∧ ((e.app b.app).dutch2 = true ∨ (e.app b.app).english2 = true) ∧
       b.amountIn ≤ w.poolBal.get b.assetIn ∧ b.amountIn ≤ w.poolBal.get b.cAsset ∧ w' = borrowSeized e w id b r := by
   unfold liquidateBorrowV2 at h
   split at h
@@ -841,7 +841,8 @@ theorem liquidateBorrowV2_cases (e : Env) (id : Nat) (w w' : World) (h : liquida
                     · cases h
                     · simp only [Option.some.injEq] at h
                       have hwl' : (e.app b.app).wl2 = true := by simpa using hwl
-                      have hd' : (e.app b.app).dutch2 = true := by simpa using hd
+                      have hd' : (e.app b.app).dutch2 = true ∨ (e.app b.app).english2 = true := by
+                        cases h1 : (e.app b.app).dutch2 <;> cases h2 : (e.app b.app).english2 <;> simp_all
                       exact Or.inr ⟨b, r, hb, hl', hr, hu, hk', hwl', hd', by omega, by omega, by rw [← h]; rfl⟩
           · simp only [Option.some.injEq] at h; exact Or.inl h.symm
 
@@ -939,7 +940,7 @@ theorem liquidateBorrowV2_rel (e : Env) (id : Nat) (w w' : World) (hn : NodupB w
                   fee := Dec.truncateInt (Dec.mul (Dec.ofInt b0.principal) b0.pen),
                   bonus := Dec.truncateInt (Dec.mul (Dec.ofInt b0.principal) b0.bon), cr := r0, collValue := b0.amountIn }, ?_, ?_, rfl,
           { id := w.auctionId + 1, locked := w.lockedId + 1, asset := b0.assetIn, amount := b0.amountIn,
-            target := b0.principal + Dec.truncateInt (Dec.mul (Dec.ofInt b0.principal) b0.pen) }, ?_, rfl, rfl⟩
+            target := b0.principal + Dec.truncateInt (Dec.mul (Dec.ofInt b0.principal) b0.pen), dutch := (e.app b0.app).dutch2 }, ?_, rfl, rfl⟩
         · unfold borrowSeized; simp
         · have hxi : x.id = id := by simpa using hid
           rw [← hxe]; simp only; rw [h0, hxi]
@@ -1079,9 +1080,228 @@ theorem appsLoopV1_rel (e : Env) (batch : Nat) (L : List Vault) (hL : (L.map (·
             (fun v hv x y hs hfv => liquidateVaultV1_rel e L hL a.id v x y hga hs hv hfv) w w1 hsub hvp
         exact StepRel.trans hr1 (ih w1 hA' (fun q hq => hsub q (hr1.1.1 q hq)) h)
 
-/-- generation 1 block hook -/
+/-! ### generation 1 borrows (sweep body and message) -/
+
+/-- an unflagged borrow keeps its record when it is on the safe side of the threshold the SWEEP applies (e-mode aware,
+ratio after the accrual) or the kill switch of its app is on. Generation 1 has no whitelisting for borrows. -/
+def KeepsB1 (e : Env) (w w' : World) : Prop :=
+  ∀ b, b ∈ w.borrows → b.liquidated = false → (borrowUnsafe e b = false ∨ (e.app b.app).kill = true) → b ∈ w'.borrows
+
+/-- what the message keeps: judged against ITS threshold -/
+def KeepsBMsg1 (e : Env) (w w' : World) : Prop :=
+  ∀ b, b ∈ w.borrows → b.liquidated = false → (borrowUnsafeMsgV1 e b = false ∨ (e.app b.app).kill = true) → b ∈ w'.borrows
+
+def flagV1 (id : Nat) (n : Int) (l : List Borrow) : List Borrow :=
+  l.map (fun x => if x.id == id then { x with liquidated := true, amountIn := n } else x)
+
+theorem flagV1_ids (id : Nat) (n : Int) (l : List Borrow) : (flagV1 id n l).map (·.id) = l.map (·.id) := by
+  unfold flagV1
+  induction l with
+  | nil => rfl
+  | cons x xs ih =>
+    simp only [List.map_cons, List.map_map] at ih ⊢
+    congr 1
+    · by_cases h : (x.id == id) = true <;> simp [h]
+
+/-- the complete effect of a generation-1 borrow seizure -/
+structure SeizedV1 (e : Env) (sweep : Bool) (b : Borrow) (r : Dec) (w w' : World) (i : SellOffIn) (o : SellOffOut) : Prop where
+  hin : b.sellOffIn e = some i
+  hout : sellOffV1 i = some o
+  auc : (e.app b.app).lendAuc1 = true
+  pool1 : o.toAuction + o.toReserve ≤ w.poolBal.get b.assetIn
+  pool2 : o.totalDeduction ≤ w.poolBal.get b.cAsset
+  vaults : w'.vaults = w.vaults
+  counter : w'.counter = w.counter
+  vaultBal : w'.vaultBal = w.vaultBal
+  offsets : w'.offsets = w.offsets
+  borrows : w'.borrows = flagV1 b.id o.newAmountIn w.borrows
+  poolBal : w'.poolBal = (w.poolBal.add b.assetIn (- (o.toAuction + o.toReserve))).add b.cAsset (- o.totalDeduction)
+  auctionBal : w'.auctionBal = w.auctionBal.add b.assetIn o.toAuction
+  reserveBal : w'.reserveBal = w.reserveBal.add b.assetIn o.toReserve
+  lockedId : w'.lockedId = w.lockedId + 1
+  lendAuctionId : w'.lendAuctionId = w.lendAuctionId + 1
+  auctionId : w'.auctionId = w.auctionId
+  lendBal : w'.lendBal = w.lendBal.add b.lendId (- o.lendReduction)
+  totalLend : w'.totalLend = w.totalLend.add (statKey b.pool b.assetIn) (- o.lendReduction)
+  books : ∃ l a, w'.newLocked = w.newLocked ++ [l] ∧ w'.newAuctions = w.newAuctions ++ [a] ∧ l.orig = b.id ∧ l.isBorrow = true ∧
+    l.id = w.lockedId + 1 ∧ a.locked = l.id ∧ a.id = w.lendAuctionId + 1 ∧ a.asset = b.assetIn ∧ l.amountIn = o.newAmountIn ∧
+    l.collValue = o.selloff ∧ a.target = l.target ∧ l.debt = b.principal ∧ l.cr = r ∧ a.dutch = true ∧
+    a.amount = Dec.truncateInt (Dec.quo o.selloff (assetValue 1 i.pIn i.dIn)) ∧
+    a.target = Dec.truncateInt (Dec.quo o.selloff (assetValue 1 i.pOut i.dOut)) ∧ 0 ≤ a.amount ∧ 0 ≤ a.target
+
+theorem seizeBorrowV1_spec (e : Env) (sweep : Bool) (b : Borrow) (r : Dec) (w w' : World)
+    (h : seizeBorrowV1 e sweep b r w = some w') : ∃ i o, SeizedV1 e sweep b r w w' i o := by
+  unfold seizeBorrowV1 at h
+  split at h
+  · cases h
+  · rename_i i hi
+    split at h
+    · cases h
+    · rename_i o ho
+      split at h
+      · cases h
+      · rename_i hp1
+        split at h
+        · cases h
+        · rename_i hp2
+          simp only at h
+          split at h
+          · cases h
+          · split at h
+            · cases h
+            · rename_i hauc
+              split at h
+              · cases h
+              · rename_i hneg
+                simp only [Option.some.injEq] at h
+                subst h
+                refine ⟨i, o, ⟨hi, ho, by simpa using hauc, by omega, by omega, rfl, rfl, rfl, rfl, rfl, rfl, rfl, rfl, rfl, rfl, rfl, rfl, rfl,
+                  ⟨_, _, rfl, rfl, rfl, rfl, rfl, rfl, rfl, rfl, rfl, rfl, rfl, rfl, rfl, rfl, rfl, rfl, by simp only; omega, by simp only; omega⟩⟩⟩
+
+theorem liquidateBorrowV1_cases (e : Env) (sweep : Bool) (id : Nat) (w w' : World) (h : liquidateBorrowV1 e sweep id w = some w') :
+    w' = w ∨ ∃ b r, w.borrows.find? (·.id == id) = some b ∧ b.liquidated = false ∧ (e.app b.app).kill = false ∧
+      borrowRatio e b = some r ∧ r > (if sweep then borrowThreshold b else borrowThresholdMsgV1 b) ∧
+      seizeBorrowV1 e sweep b r w = some w' := by
+  unfold liquidateBorrowV1 at h
+  split at h
+  · split at h
+    · simp only [Option.some.injEq] at h; exact Or.inl h.symm
+    · cases h
+  · rename_i b hb
+    split at h
+    · split at h
+      · simp only [Option.some.injEq] at h; exact Or.inl h.symm
+      · cases h
+    · rename_i hl
+      split at h
+      · cases h
+      · rename_i hk
+        simp only at h
+        cases hin : e.valueOf b.assetIn b.amountIn with
+        | none =>
+          simp only [hin] at h
+          split at h
+          · simp only [Option.some.injEq] at h; exact Or.inl h.symm
+          · cases h
+        | some tin =>
+          cases hout : e.valueOf b.assetOut b.debt with
+          | none =>
+            simp only [hin, hout] at h
+            split at h
+            · simp only [Option.some.injEq] at h; exact Or.inl h.symm
+            · cases h
+          | some tout =>
+            simp only [hin, hout] at h
+            by_cases h0 : tin = 0
+            · simp only [h0, if_true] at h; cases h
+            · simp only [h0, if_false] at h
+              by_cases hgt : Dec.quo tout tin > (if sweep = true then borrowThreshold b else borrowThresholdMsgV1 b)
+              · simp only [hgt, if_true] at h
+                refine Or.inr ⟨b, _, hb, by simpa using hl, by simpa using hk, ?_, hgt, h⟩
+                unfold borrowRatio
+                simp only [hin, hout, h0, if_false]
+              · simp only [hgt, if_false, Option.some.injEq] at h; exact Or.inl h.symm
+
+/-- the test a generation-1 borrow step applies: the sweep's (e-mode aware) or the message's -/
+def borrowUnsafeV1 (e : Env) (sweep : Bool) (b : Borrow) : Bool :=
+  if sweep then borrowUnsafe e b else borrowUnsafeMsgV1 e b
+
+theorem borrowUnsafeV1_of (e : Env) (sweep : Bool) (b : Borrow) (r : Dec) (hr : borrowRatio e b = some r)
+    (hgt : r > (if sweep then borrowThreshold b else borrowThresholdMsgV1 b)) : borrowUnsafeV1 e sweep b = true := by
+  unfold borrowUnsafeV1
+  cases sweep with
+  | true => simp only [if_true] at hgt ⊢; unfold borrowUnsafe; simp [hr, hgt]
+  | false => simp only [Bool.false_eq_true, if_false] at hgt ⊢; unfold borrowUnsafeMsgV1; simp [hr, hgt]
+
+theorem liquidateBorrowV1_keeps (e : Env) (sweep : Bool) (id : Nat) (w w' : World) (hn : NodupB w)
+    (h : liquidateBorrowV1 e sweep id w = some w') :
+    (∀ b, b ∈ w.borrows → b.liquidated = false →
+      (borrowUnsafeV1 e sweep b = false ∨ (e.app b.app).kill = true) → b ∈ w'.borrows) ∧
+    NodupB w' ∧ w'.vaults = w.vaults ∧ w'.counter = w.counter ∧ w'.vaultBal = w.vaultBal ∧ w'.offsets = w.offsets := by
+  cases liquidateBorrowV1_cases e sweep id w w' h with
+  | inl h => rw [h]; exact ⟨fun b hb _ _ => hb, hn, rfl, rfl, rfl, rfl⟩
+  | inr h =>
+    obtain ⟨b0, r0, hf, _, hk0, hr0, hgt, hs⟩ := h
+    obtain ⟨i, o, S⟩ := seizeBorrowV1_spec e sweep b0 r0 w w' hs
+    have hm0 := List.mem_of_find?_eq_some hf
+    have hu0 := borrowUnsafeV1_of e sweep b0 r0 hr0 hgt
+    refine ⟨fun b hb _ hsafe => ?_, by unfold NodupB; rw [S.borrows, flagV1_ids]; exact hn, S.vaults, S.counter, S.vaultBal, S.offsets⟩
+    have hne : ¬ (b.id = b0.id) := by
+      intro he
+      have : b = b0 := same_id_eqB hn hb hm0 he
+      subst this
+      rcases hsafe with hsafe | hsafe
+      · rw [hu0] at hsafe; cases hsafe
+      · rw [hk0] at hsafe; cases hsafe
+    rw [S.borrows]
+    unfold flagV1
+    apply List.mem_map.mpr
+    exact ⟨b, hb, by simp [hne]⟩
+
+theorem liquidateBorrowV1_vaults (e : Env) (sweep : Bool) (id : Nat) (w w' : World) (h : liquidateBorrowV1 e sweep id w = some w') :
+    w'.vaults = w.vaults := by
+  cases liquidateBorrowV1_cases e sweep id w w' h with
+  | inl h => rw [h]
+  | inr h =>
+    obtain ⟨b0, r0, _, _, _, _, _, hsz⟩ := h
+    obtain ⟨_, _, S⟩ := seizeBorrowV1_spec e sweep b0 r0 w w' hsz
+    exact S.vaults
+
+theorem foldB1_vaults (e : Env) (ids : List Nat) (w : World) :
+    (ids.foldl (fun acc id => applyIfNoError (liquidateBorrowV1 e true id) acc) w).vaults = w.vaults := by
+  induction ids generalizing w with
+  | nil => rfl
+  | cons id rest ih =>
+    simp only [List.foldl_cons]
+    rw [ih]
+    unfold applyIfNoError
+    cases hs : liquidateBorrowV1 e true id w with
+    | none => rfl
+    | some x1 => exact liquidateBorrowV1_vaults e true id w x1 hs
+
+theorem Removes.of_vaults_eq (e : Env) (w w' : World) (h : w'.vaults = w.vaults) : Removes e w w' :=
+  ⟨fun _ hq => by rw [← h]; exact hq, fun q hq hn => absurd (by rw [h]; exact hq) hn⟩
+
+theorem KeepsB1.trans {e : Env} {a b c : World} (h1 : KeepsB1 e a b) (h2 : KeepsB1 e b c) : KeepsB1 e a c :=
+  fun x hx hl hs => h2 x (h1 x hx hl hs) hl hs
+
+/-- the generation-1 borrow fold: vault side untouched, safe borrows kept -/
+theorem foldB1_rel (e : Env) (ids : List Nat) (w : World) (hn : NodupB w) :
+    let w' := ids.foldl (fun acc id => applyIfNoError (liquidateBorrowV1 e true id) acc) w
+    KeepsB1 e w w' ∧ NodupB w' ∧ w'.vaults = w.vaults ∧ w'.counter = w.counter ∧ w'.vaultBal = w.vaultBal ∧ w'.offsets = w.offsets := by
+  induction ids generalizing w with
+  | nil => exact ⟨fun _ h _ _ => h, hn, rfl, rfl, rfl, rfl⟩
+  | cons id rest ih =>
+    simp only [List.foldl_cons]
+    have step : KeepsB1 e w (applyIfNoError (liquidateBorrowV1 e true id) w) ∧ NodupB (applyIfNoError (liquidateBorrowV1 e true id) w) ∧
+        (applyIfNoError (liquidateBorrowV1 e true id) w).vaults = w.vaults ∧ (applyIfNoError (liquidateBorrowV1 e true id) w).counter = w.counter ∧
+        (applyIfNoError (liquidateBorrowV1 e true id) w).vaultBal = w.vaultBal ∧ (applyIfNoError (liquidateBorrowV1 e true id) w).offsets = w.offsets := by
+      unfold applyIfNoError
+      cases hs : liquidateBorrowV1 e true id w with
+      | none => exact ⟨fun _ h _ _ => h, hn, rfl, rfl, rfl, rfl⟩
+      | some w1 =>
+        have hk := liquidateBorrowV1_keeps e true id w w1 hn hs
+        exact ⟨fun b hb hl hsafe => hk.1 b hb hl hsafe, hk.2⟩
+    have r := ih _ step.2.1
+    exact ⟨KeepsB1.trans step.1 r.1, r.2.1, by rw [r.2.2.1, step.2.2.1], by rw [r.2.2.2.1, step.2.2.2.1],
+      by rw [r.2.2.2.2.1, step.2.2.2.2.1], by rw [r.2.2.2.2.2, step.2.2.2.2.2]⟩
+
+/-- generation-1 borrow pass -/
+theorem borrowPassV1_rel (e : Env) (batch : Nat) (w w' : World) (hn : NodupB w) (h : (borrowPassV1 e batch w).world? = some w') :
+    KeepsB1 e w w' ∧ NodupB w' ∧ w'.vaults = w.vaults ∧ w'.counter = w.counter ∧ w'.vaultBal = w.vaultBal := by
+  unfold borrowPassV1 at h
+  simp only at h
+  split at h
+  · cases h
+  · rename_i sl _
+    simp only [Outcome.world?, Option.some.injEq] at h
+    subst h
+    have r := foldB1_rel e sl w hn
+    exact ⟨r.1, r.2.1, r.2.2.1, r.2.2.2.1, r.2.2.2.2.1⟩
+
+/-- generation 1 block hook: the vault sweep's relation, then the borrow sweep leaves the vault side untouched -/
 theorem blockV1_rel (e : Env) (batch : Nat) (w w' : World) (hU : AppsUnique e) (hn : NodupIds w)
-    (h : (blockV1 e batch w).world? = some w') : StepRel e w w' := by
+    (h : (blockV1 e batch w).world? = some w') : Removes e w w' := by
   unfold blockV1 at h
   split at h
   · cases h
@@ -1090,12 +1310,42 @@ theorem blockV1_rel (e : Env) (batch : Nat) (w w' : World) (hU : AppsUnique e) (
       (fun a ha => by
         simp only [List.mem_filter] at ha
         exact ⟨hU a ha.1, ha.2⟩) (fun _ h => h) hl
-    simp only at h
-    split at h
-    · cases h
-    · simp only [Outcome.world?, Option.some.injEq] at h
-      subst h
-      exact hr
+    -- the borrow pass keeps the vault list whatever the borrow list looks like
+    have hv : w'.vaults = w1.vaults := by
+      unfold borrowPassV1 at h
+      simp only at h
+      split at h
+      · cases h
+      · rename_i sl _
+        simp only [Outcome.world?, Option.some.injEq] at h
+        subst h
+        exact foldB1_vaults e sl w1
+    exact Removes.trans hr.1 (Removes.of_vaults_eq e w1 w' hv)
+
+/-- generation 1 block hook, borrow side: safe (or kill-switched) unflagged borrows keep their record -/
+theorem blockV1_keepsB1 (e : Env) (batch : Nat) (w w' : World) (hU : AppsUnique e) (hn : NodupIds w) (hb : NodupB w)
+    (h : (blockV1 e batch w).world? = some w') : KeepsB1 e w w' ∧ NodupB w' := by
+  unfold blockV1 at h
+  split at h
+  · cases h
+  · rename_i w1 hl
+    have hr := appsLoopV1_rel e batch w.vaults hn _ w w1
+      (fun a ha => by
+        simp only [List.mem_filter] at ha
+        exact ⟨hU a ha.1, ha.2⟩) (fun _ h => h) hl
+    have h1 : KeepsB1 e w w1 := fun b hb' hl' hs => hr.2.1 b hb' hl' (by
+      rcases hs with hs | hs
+      · exact Or.inl hs
+      · exact Or.inr (Or.inl hs))
+    have r := borrowPassV1_rel e batch w1 w' (hr.2.2.2.2 hb) h
+    exact ⟨KeepsB1.trans h1 r.1, r.2.1⟩
+
+/-- generation 1 `MsgLiquidateBorrow`: what it keeps (judged against ITS threshold), and the vault side is untouched -/
+theorem msgLiquidateBorrowV1_rel (e : Env) (id : Nat) (w w' : World) (hb : NodupB w)
+    (h : msgLiquidateBorrowV1 e id w = some w') : KeepsBMsg1 e w w' ∧ Removes e w w' ∧ NodupB w' := by
+  unfold msgLiquidateBorrowV1 at h
+  have hk := liquidateBorrowV1_keeps e false id w w' hb h
+  exact ⟨fun b hb' hl hs => hk.1 b hb' hl hs, Removes.of_vaults_eq e w w' hk.2.2.1, hk.2.1⟩
 
 /-- generation 2 liquidate message (any sender, any type, any target) -/
 theorem msgLiquidateV2_rel (e : Env) (liqType id : Nat) (w w' : World) (hn : NodupIds w) (hb : NodupB w)
@@ -1222,5 +1472,103 @@ theorem liquidateBorrowV2_seizes (e : Env) (id : Nat) (w : World) (b : Borrow) (
   have n2 : ¬ (w.poolBal.get b.cAsset < b.amountIn) := by omega
   unfold liquidateBorrowV2 borrowSeized flag
   simp [hf, hl, hkill, hr, hgt, hwl, hd, hpi, hpo, n1, n2]
+
+/-! ### liveness when governance changes the batch size between blocks (any positive sizes) -/
+
+/-- offsets evolve as the code stores them, block `k` running with batch size `bt k` -/
+def EvolvesV (bt : Nat → Nat) (r : Nat → Sw) : Prop :=
+  ∀ k, (r (k+1)).off = (sweepBounds (r k).l.length (r k).off (bt k)).2
+
+/-- number of positions covered by the first `k` blocks of the sweep that starts at block `t` -/
+def covered (bt : Nat → Nat) (t : Nat) : Nat → Nat
+  | 0 => 0
+  | k+1 => covered bt t k + bt (t+k)
+
+theorem covered_mono (bt : Nat → Nat) (t : Nat) {a b : Nat} (h : a ≤ b) : covered bt t a ≤ covered bt t b := by
+  induction b with
+  | zero => have : a = 0 := by omega
+            subst this; exact Nat.le_refl _
+  | succ b ih =>
+    by_cases hab : a = b + 1
+    · subst hab; exact Nat.le_refl _
+    · have := ih (by omega)
+      show covered bt t a ≤ covered bt t b + bt (t+b)
+      omega
+
+theorem covered_ge (bt : Nat → Nat) (hb : ∀ k, 0 < bt k) (t k : Nat) : k ≤ covered bt t k := by
+  induction k with
+  | zero => exact Nat.le_refl _
+  | succ k ih =>
+    show k + 1 ≤ covered bt t k + bt (t+k)
+    have := hb (t+k)
+    omega
+
+/-- the block of the sweep in which index `i` is covered exists and is at most `i` blocks after the start -/
+theorem covered_block_exists (bt : Nat → Nat) (hb : ∀ k, 0 < bt k) (t i : Nat) :
+    ∃ K, K ≤ i ∧ covered bt t K ≤ i ∧ i < covered bt t (K+1) := by
+  have key : ∀ m, i < covered bt t m → ∃ K, K < m ∧ covered bt t K ≤ i ∧ i < covered bt t (K+1) := by
+    intro m
+    induction m with
+    | zero => intro h; exact absurd h (by show ¬ (i < 0); omega)
+    | succ m ih =>
+      intro h
+      by_cases hm : covered bt t m ≤ i
+      · exact ⟨m, by omega, hm, h⟩
+      · obtain ⟨K, hK, h1, h2⟩ := ih (by omega)
+        exact ⟨K, by omega, h1, h2⟩
+  obtain ⟨K, hK, h1, h2⟩ := key (i+1) (by have := covered_ge bt hb t (i+1); omega)
+  exact ⟨K, by omega, h1, h2⟩
+
+theorem marchV (bt : Nat → Nat) (hb : ∀ k, 0 < bt k) (r : Nat → Sw) (hev : EvolvesV bt r) (t i : Nat)
+    (hstart : (r t).starts (bt t) = true) (K : Nat) (hK : covered bt t K ≤ i)
+    (hlen : ∀ k, k ≤ K → i < (r (t+k)).l.length) :
+    ∀ k, k ≤ K → sweepBounds (r (t+k)).l.length (r (t+k)).off (bt (t+k))
+        = (covered bt t k, min (covered bt t k + bt (t+k)) (r (t+k)).l.length) := by
+  intro k
+  induction k with
+  | zero =>
+    intro _
+    have h0 := hlen 0 (by omega)
+    have := starts_bounds (bt t) (hb t) (r t) hstart (by simp at h0; omega)
+    simp only [Nat.add_zero]
+    show _ = (0, min (0 + bt t) _)
+    rw [Nat.zero_add]
+    exact this
+  | succ k ih =>
+    intro hk
+    have ihk := ih (by omega)
+    have hoff : (r (t + (k+1))).off = min (covered bt t k + bt (t+k)) (r (t+k)).l.length := by
+      have := hev (t+k)
+      rw [ihk] at this
+      simpa [Nat.add_assoc] using this
+    have h1 : covered bt t (k+1) ≤ covered bt t K := covered_mono bt t hk
+    have h2 := hlen k (by omega)
+    have h3 := hlen (k+1) hk
+    have hsucc : covered bt t (k+1) = covered bt t k + bt (t+k) := rfl
+    have : (r (t + (k+1))).off = covered bt t (k+1) := by rw [hoff, hsucc]; omega
+    rw [sweepBounds_inside _ _ _ (by omega) (hb _), this]
+
+/-- **Liveness under a changing batch size.** Block `t` starts a sweep; the blocks run with arbitrary positive batch sizes
+`bt`. If `p` stays at index `i` up to the block `t + K` whose range `[covered K, covered (K+1))` contains `i`, it is handed to
+the step in that block — and such a `K ≤ i` always exists (`covered_block_exists`). -/
+theorem sweep_live_varbatch_aux (bt : Nat → Nat) (hb : ∀ k, 0 < bt k) (r : Nat → Sw) (hev : EvolvesV bt r)
+    (t i p K : Nat) (hstart : (r t).starts (bt t) = true)
+    (hK1 : covered bt t K ≤ i) (hK2 : i < covered bt t (K+1))
+    (hpos : ∀ k, k ≤ K → (r (t+k)).l[i]? = some p) :
+    p ∈ (r (t + K)).processed (bt (t+K)) := by
+  have hlen : ∀ k, k ≤ K → i < (r (t+k)).l.length := by
+    intro k hk
+    have := hpos k hk
+    exact (List.getElem?_eq_some_iff.mp this).1
+  have hm := marchV bt hb r hev t i hstart K hK1 hlen K (Nat.le_refl _)
+  unfold Sw.processed
+  simp only
+  rw [hm]
+  simp only
+  apply mem_slice _ _ _ i p (hpos _ (Nat.le_refl _)) hK1
+  have := hlen K (Nat.le_refl _)
+  have h2 : covered bt t (K+1) = covered bt t K + bt (t+K) := rfl
+  omega
+
 
 end Comdex.Liquidation
